@@ -341,6 +341,40 @@ class ProofMachine(QueryMachine):
         else:
             await self.apply(['force', mode], loop)
 
+    async def apply(self, op, loop):
+        if op[0] == 'sub_slow':
+            # (C11 reuses the slot of C07's subscribe race for its own race) a header proof whose
+            # extension read is in flight *before* the blocks it covers are undone and replaced
+            w = self.world
+            c = self.client(op[1])
+            if c is None:
+                return
+            w.extend([op[3]])
+            self.max_tip_seen = max(self.max_tip_seen, w.height)
+            self.since['block'] = True
+            await asyncio.sleep(7)
+            cp = self.server.db.state.height
+            if cp < 3 or self.server.db.header_mc.length > cp:
+                return
+
+            def rule(job, left=[2]):
+                if left[0] and job.name == 'read_headers':
+                    left[0] -= 1
+                    if not left[0]:
+                        loop.job_time_rule = None
+                    return 0.0, 8.0
+                return 0.0, 0.0
+            loop.job_time_rule = rule
+            self.send(c, 'blockchain.block.header', [1, cp],
+                      {'kind': 'query', 'method': 'blockchain.block.header'})
+            await asyncio.sleep(0.01)
+            self.info['classes'].add('extension_read_in_flight_before_reorg')
+            await super().apply(['fork', 1 + op[2] % 2,
+                                 [{'cb': [[2, 1]], 'nonce': 9, 'coll': None, 'txs': [], 'mp': []}]],
+                                loop)
+            return
+        await super().apply(op, loop)
+
     async def check_queries(self, model, mp):
         self.judge_window_replies()
         live = [c for c in self.clients if not c.closed]
@@ -406,7 +440,8 @@ def body_dynamic(ctx):
     def run(case):
         msg, sig, info = run_dynamic(ctx.scratch, case)
         classes = info['classes']
-        ctx.record(case=case, nontrivial='proof_request_across_backup' in classes,
+        ctx.record(case=case, nontrivial=bool(classes & {'proof_request_across_backup',
+                                                         'extension_read_in_flight_before_reorg'}),
                    classes=sorted(classes) + ['dynamic'],
                    sample={'check': 'c11.dynamic', 'ops': case['ops'][:10], 'tape': case['tape'][:20]})
         ctx.extra['proofs_verified'] = ctx.extra.get('proofs_verified', 0) + info['checked_queries']
